@@ -25,6 +25,7 @@ import core
 import findings
 import gen
 import impl
+import loadtol
 
 PID = "C18"
 TRUSTED = [
@@ -113,11 +114,12 @@ def outcome_class(res):
 
 
 def nontrivial(case, res):
-    return any(int(np.prod(a["shape"], dtype=np.int64)) > 0 and np.any(np.asarray(a["dense"])) for a in case.get("arrays", [])) or case["kind"] != "valid"
+    return any((bool(a.get("data")) if "coords" in a else int(np.prod(a["shape"], dtype=np.int64)) > 0 and np.any(np.asarray(a["dense"])))
+               for a in case.get("arrays", [])) or case["kind"] != "valid"
 
 
 def slim(case):
-    return {k: v for k, v in case.items() if k in ("op", "fam", "arrays", "args", "kwargs", "kind", "warm", "deadline")}
+    return {k: v for k, v in case.items() if k in ("op", "fam", "arrays", "args", "kwargs", "kind", "warm", "deadline", "value", "expect", "touch")}
 
 
 # ---------------------------------------------------------------------------------------------------------------------
@@ -307,6 +309,22 @@ def leg_a(ctx, rng, pool):
             for k in range(0, 3 if full else 2):
                 for ind in itertools.product(range(-1, 3), repeat=k):
                     gcxs_req(1, k, list(ind), list(ptr), sh, ca)
+    # ... the same verdict for every integer dtype of indices and indptr (the model has no dtype: gcxs_ctor_dtype_independent)
+    dts = G.INT_DTYPES
+    dtriples = [([0, 1, 0], [0, 1, 3, 3], [3, 2]), ([0, 1, 0], [0, 3, 1, 3], [3, 2]), ([0, 1, 0], [0, 2, 1, 3], [3, 2]), ([0, 2, 0], [0, 1, 3, 3], [3, 2]),
+                ([0, 1, 0], [0, 1, 3, 2], [3, 2]), ([0, 1, 0], [1, 1, 3, 3], [3, 2]), ([1, 1, 0], [0, 3, 3, 3], [3, 2]), ([0, 1], [0, 2, 1, 2, 2], [4, 3]),
+                ([0, 1, 0], [0, 127, 1, 3], [3, 2]), ([-1, 1, 0], [0, 1, 3, 3], [3, 2])]
+    pairs_ = [(a_, b_) for a_ in dts for b_ in dts] if full else [(a_, a_) for a_ in dts] + [("int64", b_) for b_ in dts] + [("uint8", "int32"), ("uint16", "uint8"), ("int8", "uint64")]
+    for ind, ptr, sh in dtriples:
+        for di, dp in pairs_:
+            if (di.startswith("u") and min(ind) < 0) or (dp.startswith("u") and min(ptr) < 0):
+                continue
+            def f(ind=ind, ptr=ptr, sh=sh, di=di, dp=dp):
+                sparse.GCXS((np.arange(1, len(ind) + 1), np.array(ind, dtype=di), np.array(ptr, dtype=dp)), shape=tuple(sh), compressed_axes=[0])
+            add("GCXS.__init__:dtypes", ["v_gcxs_ctor", 1, len(ind), ind, ptr, sh, [0]], impl_verdict(f))
+    # _compute_mask: iterations of the pair search and the axis at which the loop leaves for the filter, against Model.MaskCost over the heuristic
+    # as READ from the source (Gen.maskHeuristicLhs/Rhs evaluated in IEEE double), on the pure-Python body with _get_mask_pairs instrumented
+    leg_a_mask(ctx, rng, add, full)
     # check_compressed_axes
     for nd in range(0, 5):
         cands = [None] + [list(t) for k in range(0, 4) for t in itertools.product(range(-1, nd + 1), repeat=k)]
@@ -354,6 +372,83 @@ def leg_a(ctx, rng, pool):
                 ctx.fail("A", f"model:{fm}", r, f"model {o} implementation {w}")
     ctx.notes["correspondence"] = {"requests": len(reqs), "by_family": dict(Counter(fam)), "disagreements": dict(bad),
                                    "regions_not_compared": dict(skipped)}
+
+
+def leg_a_mask(ctx, rng, add, full):
+    import numba
+    import sparse
+    from sparse.numba_backend._coo import indexing as CI
+
+    rec = []
+    orig = CI._get_mask_pairs
+
+    def spy(starts_old, stops_old, c, idx):
+        L = len(range(int(idx[0]), int(idx[1]), int(idx[2])))
+        M = sum(int(b) - int(a) for a, b in zip(starts_old, stops_old))
+        out = orig(starts_old, stops_old, c, idx)
+        rec.append({"L": L, "p": len(starts_old), "M": M, "p2": len(out[0]), "M2": int(out[2])})
+        return out
+
+    n_cases = 120 if not full else 1500
+    sound_reqs = set()
+    CI._get_mask_pairs = spy
+    try:
+        for _ in range(n_cases):
+            nd = int(rng.integers(1, 4))
+            shape = tuple(int(rng.choice([1, 2, 3, 6, 40, 5000])) for _ in range(nd))
+            size = int(np.prod(shape))
+            nnz = int(min(size, rng.choice([0, 1, 2, 5, 30])))
+            lin = np.sort(rng.choice(size, size=nnz, replace=False)) if nnz else np.zeros(0, dtype=np.int64)
+            coords = np.stack(np.unravel_index(lin, shape)).astype(np.intp) if nd else np.zeros((0, nnz), dtype=np.intp)
+            idx = []
+            for n_ in shape:
+                q = rng.random()
+                if q < 0.3:
+                    v = int(rng.integers(0, n_))
+                    idx.append((v, v + 1, 1))
+                elif q < 0.5:
+                    idx.append((0, n_, 1))
+                else:
+                    a_ = int(rng.integers(0, n_))
+                    b_ = int(rng.integers(a_, n_ + 1))
+                    idx.append((a_, b_, int(rng.choice([1, 1, 2, 3]))))
+            k = int(rng.integers(1, nd + 1))
+            indices = np.array(idx[:k], dtype=np.intp)
+            rec.clear()
+            CI._compute_mask.py_func(coords, indices)
+            steps, taken = [], 0
+            for j in range(k):
+                if j < len(rec):
+                    steps.append([rec[j]["L"], rec[j]["p2"], rec[j]["M2"]])
+                    taken += rec[j]["L"] * rec[j]["p"]
+                    sound_reqs.add((rec[j]["L"] * rec[j]["p"] + 2, rec[j]["p"], rec[j]["M"]))
+                else:
+                    steps.append([len(range(*idx[j])), 0, 0])
+            adm = all(r_["p2"] <= r_["M2"] <= r_["M"] for r_ in rec)
+            if not adm:
+                ctx.fail("A", "model:compute_mask", {"shape": list(shape), "coords": coords.T.tolist(), "indices": indices.tolist()},
+                         f"_get_mask_pairs left more pairs than entries or more entries than before: {rec}")
+            add("compute_mask:iterations", ["mask_iterations", nnz, steps], {"ok": {"pair": taken, "axes": len(rec)}})
+    finally:
+        CI._get_mask_pairs = orig
+    # the one assumed property of the floating-point guard (HeuristicSound), sampled: on the triples met above and on a grid up to 2**62
+    grid = sorted(sound_reqs) + [(S, p_, M) for p_ in (0, 1, 2, 7, 1000, 10 ** 6) for M in (0, 1, 2, 5, p_, 3 * p_ + 1, 10 ** 6, 10 ** 12)
+                                 for S in (2, 3, 3 * max(p_, 1), 3 * max(p_, 1) + 1, M + p_, M + p_ + 1, 2 * (M + p_) + 3, 2 ** 40, 2 ** 62, 2 ** 62 * max(p_, 1) + 2)]
+    outs = ctx.driver.run([["heuristic_take", S, p_, M] for S, p_, M in grid])
+    bad = 0
+    for (S, p_, M), o in zip(grid, outs):
+        ctx.case("A:compute_mask:heuristic", [S, p_, M], nontrivial=True)
+        if "ok" not in o:
+            bad += 1
+            if bad <= 3:
+                ctx.fail("A", "model:compute_mask:heuristic", [S, p_, M], f"driver rejected the request: {o}")
+        elif o["ok"] and 3 * max(p_, 1) <= S and not S <= M + p_:
+            bad += 1
+            if bad <= 3:
+                ctx.fail("A", "model:compute_mask:heuristic", {"S": S, "pairs": p_, "matches": M},
+                         "the heuristic as read from the source goes on with pairs although the slices outnumber matches + pairs: HeuristicSound (the hypothesis of "
+                         "compute_mask_iterations_bound) does not hold of it")
+    ctx.notes["heuristic_sound_samples"] = len(grid)
 
 
 # ---------------------------------------------------------------------------------------------------------------------
@@ -436,6 +531,16 @@ def retired_witnesses():
     yield G.case("GCXS(triple,shape,ca)", "ctor", [], [[A([1, 2]), A([1, 0]), A([0, 2])]], {"shape": [1, 2], "compressed_axes": [0]}, "ctor", chunk="ctor")
     yield G.case("GCXS(triple,shape,ca)", "ctor", [], [[A([1, 2]), A([1, 1]), A([0, 2])]], {"shape": [1, 2], "compressed_axes": [0]}, "ctor", chunk="ctor")
     yield G.case("GCXS(triple,shape,ca)", "ctor", [], [[A([5]), A([], [0, 1]), A([])]], {"shape": []}, "ctor", chunk="ctor")
+    # ... every integer dtype of the index arrays gives the same verdict: a decreasing indptr stored unsigned (np.diff would wrap), mixed widths
+    for dp in ("uint8", "uint16", "uint32", "uint64", "int8", "int32"):
+        for di in ("int64", "uint8"):
+            yield G.case("GCXS(triple,shape,ca)", "ctor", [], [[A([7, 8, 9]), dict(A([0, 1, 0]), dtype=di), dict(A([0, 3, 1, 3]), dtype=dp)]],
+                         {"shape": [3, 2], "compressed_axes": [0]}, "ctor", chunk="ctor")
+            yield G.case("GCXS(triple,shape,ca)", "ctor", [], [[A([7, 8, 9]), dict(A([0, 1, 0]), dtype=di), dict(A([0, 1, 3, 3]), dtype=dp)]],
+                         {"shape": [3, 2], "compressed_axes": [0]}, "ctor", chunk="ctor")
+    # ... index arrays that are not integers (open: F-c18-gcxs-ctor-index-dtype-unchecked)
+    yield G.case("GCXS(triple,shape,ca)", "ctor", [], [[A([7, 8]), dict(A([1, 0]), dtype="float64"), A([0, 1, 2])]], {"shape": [2, 2], "compressed_axes": [0]}, "ctor", chunk="ctor")
+    yield G.case("GCXS(triple,shape,ca)", "ctor", [], [[A([7, 8]), A([1, 0]), dict(A([0, 1, 2]), dtype="float64")]], {"shape": [2, 2], "compressed_axes": [0]}, "ctor", chunk="ctor")
     # ... the open 0-d residual (F-c18-gcxs-ctor-0d-unchecked)
     yield G.case("GCXS(triple,shape,ca)", "ctor", [], [[A([5]), A([0]), A([])]], {"shape": []}, "ctor", chunk="ctor")
     # f8a1188 nbytes of a 0-d / 1-d GCXS
@@ -476,6 +581,8 @@ def build_cases(ctx, rng):
     cases += list(G.sweep_gcxs_slices())
     cases += list(known_cases())
     cases += list(G.dot_probes(full=not ctx.quick))
+    cases += list(G.long_axis_probes(gen.rng_for(ctx.seed, PID + ":long"), full=not ctx.quick))
+    cases += list(G.scaling_probes())
     if not ctx.quick:
         s2 = list(G.all_shapes(2))
         s3 = s2 + [s for s in itertools.product(G.EXT, repeat=3) if 0 in s or max(s) <= 2]
@@ -497,6 +604,7 @@ def leg_c(ctx, rng, pool):
     stats = {"per_operation": Counter(), "per_kind": Counter(), "per_outcome": Counter(), "per_numpy_verdict": Counter(), "per_format": Counter(),
              "per_family": Counter(), "verdict_x_outcome": Counter()}
     hangs = crashes = 0
+    scaling = {}
     rescued = []
     fails_by_id = Counter()
     elapsed_max = (0.0, None)
@@ -521,12 +629,48 @@ def leg_c(ctx, rng, pool):
         sc = slim(c)
         ctx.case(f"C:{c['fam']}:{c['kind']}", sc, nontrivial=nontrivial(c, r))
         msg = judge(c, r)
+        if not msg and c.get("expect") is not None and r.get("out") == "ok":
+            got = {k: v for k, v in (r.get("value") or {}).items() if k != "type"} if isinstance(r.get("value"), dict) else r.get("value")
+            want = {k: v for k, v in c["expect"].items() if k != "type"}
+            if got != want:
+                msg = f"wrong: the call returned {str(got)[:160]} but the coordinate dictionary gives {str(want)[:160]}"
+        if c.get("scaling") and r.get("out") == "ok":
+            sp = c["scaling"]
+            scaling.setdefault((sp["fmt"], sp["nnz"], json.dumps(sp["slice"])), {})[sp["extent"]] = (r.get("cpu") or 0.0, sc, c)
         if msg:
             info = dict(sc, formats=[G.fmt_tag(a) for a in c.get("arrays", [])], shapes=[a["shape"] for a in c.get("arrays", [])],
                         outcome=oc, etype=r.get("etype"), np=r.get("np"), np_msg=r.get("np_msg"), origin=r.get("origin"))
             fid = findings.classify(PID, c["op"], info, msg)
             fails_by_id[fid or "UNCLASSIFIED"] += 1
             ctx.fail("C", c["op"], info, msg, finding=fid)
+    # scaling: same stored entries, same slice, extents 2**12 / 2**24 / 2**40 — the CPU time of the call (time.process_time in the worker) may not
+    # follow the extent.  Generous: a call on the longer axis may take 200 x the CPU time on the 2**12 axis + 5 units of the reference computation of
+    # this run (30 microseconds typically; 1.2 s at 2**24 when every position of the slice is searched).  A miss is re-measured alone before it counts.
+    unit = (pool.ref or {}).get("cpu") or loadtol.NOMINAL_UNIT
+    table, rescued_scaling = {}, []
+
+    def alone(case_):
+        c2 = {k: v for k, v in case_.items() if k != "id"}
+        return pool.run([c2])[0]
+
+    for key, by_ext in scaling.items():
+        small = by_ext.get(2 ** 12)
+        table["/".join(key)] = {str(e): round(t, 6) for e, (t, _, _) in sorted(by_ext.items())}
+        if small is None:
+            continue
+        for ext, (t, sc_, c_) in by_ext.items():
+            if ext > 2 ** 12 and t > 200 * small[0] + 5 * unit:
+                rs, rb = alone(small[2]), alone(c_)
+                ts, tb = rs.get("cpu") or 0.0, rb.get("cpu") if rb.get("out") == "ok" else None
+                if tb is not None and tb <= 200 * ts + 5 * unit:
+                    rescued_scaling.append({"key": "/".join(key), "extent": ext, "cpu_first": t, "cpu_alone": tb})
+                    continue
+                info = dict(sc_, formats=[G.fmt_tag(a) for a in sc_.get("arrays", [])], shapes=[a["shape"] for a in sc_.get("arrays", [])], outcome="slow", etype=None, np="none", origin=None)
+                m_ = (f"scaling: {key[0]} x[{key[2]}] with {key[1]} stored entr(y/ies) took {t:.4f} s of CPU time on an axis of {ext} positions ({tb} s when re-run alone) and "
+                      f"{small[0]:.6f} s on an axis of 4096 (reference computation of this run: {unit:.4f} s): the time follows the extent of the axis, not the stored entries")
+                ctx.fail("C", "xlong[idx]:scaling", info, m_, finding=findings.classify(PID, "xlong[idx]:scaling", info, m_))
+    ctx.notes["scaling_rescued_by_solitary_retry"] = rescued_scaling
+    ctx.notes["scaling"] = table
     ctx.notes["error_stream"] = {k: dict(sorted(v.items())) for k, v in stats.items()}
     ctx.notes["error_stream"].update({"cases": len(cases), "hangs": hangs, "crashes": crashes, "failures_by_finding": dict(fails_by_id),
                                       "pool": dict(pool.stats), "timeouts_rescued_by_retry": rescued, "slowest_call_s": elapsed_max[0], "slowest_call_op": elapsed_max[1],
@@ -589,14 +733,17 @@ def run(ctx):
     ctx.trusted = TRUSTED
     ctx.assumptions = [
         "NumPy's accept/reject verdict on the same dense arguments is the specification; value agreement is the business of C01-C10",
-        "a call is taken to hang when it has not answered within 25 s + 0.2 ms per element/extent unit (explicit probes: 10 s after a warm-up call), "
-        "confirmed by a retry in a fresh process with three times the deadline",
+        "a call is taken to hang when it has not answered within 25 s + 0.2 ms per element/extent unit (explicit probes: 10 s / 30 s after a warm-up call), "
+        "stretched by the slowdown of the moment (contention seen by a reference computation, load average per CPU), AND has missed three times that limit again "
+        "when retried alone in a fresh process after all other workers have finished; the scaling probe compares CPU time of the worker, re-measured alone on a miss",
         "termination of kernels outside the Lean loop models is observed on the enumerated small shapes, not proved",
     ]
-    core.prove(ctx, PID, uses=["normalizeAxisInt", "checkIndexInt", "bcastOk", "bcastDim"])
+    core.prove(ctx, PID, uses=["normalizeAxisInt", "checkIndexInt", "bcastOk", "bcastDim", "maskHeuristicLhs", "maskHeuristicRhs", "maskSlicesDef", "gcxsCtorChecks"])
     rng = gen.rng_for(ctx.seed, PID)
     pool = c18_pool.Pool(nworkers=int(os.environ.get("VERIF_C18_WORKERS", "8")), log=core.log)
     try:
+        pool.calibrate()
+        core.log(f"C18: reference computation {pool.ref}, slowdown {loadtol.slowdown(pool.ref):.2f}, load/cpu {loadtol.load_per_cpu():.2f}")
         leg_a(ctx, gen.rng_for(ctx.seed, PID + ":kernel"), pool)
         leg_c(ctx, rng, pool)
         timing(ctx, pool)
